@@ -57,6 +57,9 @@ func vhC05() {
 	for k := 0; k < n; k++ {
 		m := &Message{}
 		d := verifNondetString("data", verifParam("N", 2))
+		if verifParam("TRAILNL", 0) == 1 {
+			d += "\n\n" // the data ends in an empty line
+		}
 		m.AppendData(d)
 		ty := ""
 		if verifParam("NOTYPE", 0) == 0 && verifChoose("hastype", 2) == 1 {
